@@ -150,21 +150,21 @@ def closeChans (e : Exc) : Nat → Conn → Conn
     | some c => if c.reg then withChan s1 n (fun c => processConnectionClose c e) ignoreErr else s1
     | none => s1
 
-/-- `while self._global_request_waiters: self._process_global_response(MSG_REQUEST_FAILURE, ...)` -/
-def failGlobal (s : Conn) : Conn :=
-  { s with greqs := s.gwaiters.foldl (fun g i => g.set i .listenErr) s.greqs, gwaiters := [] }
-
-/-- `SSHConnection._cleanup(exc)` (connection.py:1070) -/
+/-- `SSHConnection._cleanup(exc)` (connection.py:1070): close every channel; fail the global request waiters
+    (`while self._global_request_waiters: self._process_global_response(MSG_REQUEST_FAILURE, ...)`); resolve
+    the connect waiter; tell the owner once; set `_close_event` -/
 def connCleanup (s : Conn) (e : Exc) : Conn :=
   let s1 := closeChans e s.chans.length s
-  let s2 := failGlobal s1
-  let s3 : Conn :=
-    if s2.establishing then
-      { s2 with establishing := false, connectOutcome := if e = .clean then .ok else .exc e }
-    else s2
-  let s4 : Conn :=
-    if s3.owner then { s3 with ownerTrace := s3.ownerTrace ++ [.lost e], owner := false } else s3
-  { s4 with closeEvent := true, wcDone := s4.wcDone + s4.wcPending, wcPending := 0 }
+  { s1 with
+    greqs := s1.gwaiters.foldl (fun g i => g.set i .listenErr) s1.greqs
+    gwaiters := []
+    connectOutcome := if s1.establishing then (if e = .clean then .ok else .exc e) else s1.connectOutcome
+    establishing := false
+    ownerTrace := if s1.owner then s1.ownerTrace ++ [.lost e] else s1.ownerTrace
+    owner := false
+    closeEvent := true
+    wcDone := s1.wcDone + s1.wcPending
+    wcPending := 0 }
 
 /-- `connection_lost(exc)` from the transport (connection.py:1409); `reset = true`: an OSError is given -/
 def connectionLost (s : Conn) (reset : Bool) : Conn :=
